@@ -14,6 +14,67 @@ use std::fs::OpenOptions;
 use std::panic::{catch_unwind, AssertUnwindSafe};
 use std::path::{Component, Path, PathBuf};
 
+// ------------------------------------------------------------------ confinement
+/// SAFETY OF THE HARNESS ITSELF, first layer.  The code under test performs destructive filestore operations on names that are
+/// MEANT to try to escape.  When a change to the code makes an escape succeed, the operation acts on whatever the escaped path
+/// denotes - with an ABSOLUTE escape (`//` -> `/`) that is the machine's own filesystem root (`remove_directory("//")` is
+/// `remove_dir_all("/")`: this happened once, against a seeded change, see DESIGN.md section 12).  The process therefore
+/// chroots into a scratch directory of its own before it touches the filestore: inside, "/" IS the scratch area, every escape
+/// - relative or absolute - lands in watched territory, and nothing outside can be reached.  Without the privilege to chroot
+/// the second layer applies: operations whose resolved path leaves the scratch area are reported and NOT executed.
+const MARKER: &str = "cfdp_verif_chroot_marker";
+static CONFINED: std::sync::OnceLock<bool> = std::sync::OnceLock::new();
+
+fn confined() -> bool {
+    *CONFINED.get().unwrap_or(&false)
+}
+
+/// empties the private root at the end of a run (only ever inside the chroot, recognised by its marker file)
+fn leave() {
+    if confined() && Path::new("/").join(MARKER).is_file() {
+        for d in ["/jails", "/tmp", NA, NB] {
+            let p = Path::new("/").join(d);
+            if p.is_dir() { let _ = std::fs::remove_dir_all(&p); } else { let _ = std::fs::remove_file(&p); }
+        }
+        let _ = std::fs::remove_file(Path::new("/").join(MARKER));
+    }
+}
+
+fn confine() {
+    let verif = std::env::var("CFDP_VERIF_ROOT").unwrap_or_else(|_| "/verif".to_string());
+    let base = PathBuf::from(verif).join(".work").join("jails").join(format!("cr-{}", std::process::id()));
+    let ok = std::fs::create_dir_all(base.join("jails")).is_ok()
+        && std::fs::create_dir_all(base.join("tmp")).is_ok()
+        && std::fs::write(base.join(MARKER), b"scratch root of the cfdp-rs verification harness").is_ok()
+        && std::os::unix::fs::chroot(&base).is_ok()
+        && std::env::set_current_dir("/").is_ok()
+        && Path::new("/").join(MARKER).is_file();
+    if ok {
+        std::env::set_var("TMPDIR", "/tmp");
+    }
+    let _ = CONFINED.set(ok);
+}
+
+/// the inodes of everything below `root` (what an `open` through the filestore may legitimately return)
+fn inodes_below(root: &Path) -> std::collections::HashSet<(u64, u64)> {
+    use std::os::unix::fs::MetadataExt;
+    let mut s = std::collections::HashSet::new();
+    let mut stack = vec![root.to_path_buf()];
+    while let Some(d) = stack.pop() {
+        if let Ok(rd) = std::fs::read_dir(&d) {
+            for e in rd.flatten() {
+                if let Ok(m) = std::fs::symlink_metadata(e.path()) {
+                    s.insert((m.dev(), m.ino()));
+                    if m.is_dir() {
+                        stack.push(e.path());
+                    }
+                }
+            }
+        }
+    }
+    s
+}
+
 // ------------------------------------------------------------------ helpers
 fn lexical(p: &Path) -> PathBuf {
     let mut out = PathBuf::new();
@@ -73,9 +134,12 @@ struct Jail {
 const PAD: usize = 8;
 
 fn jail() -> Jail {
-    let base = std::path::Path::new("/verif/.work/jails");
+    let base = if confined() { PathBuf::from("/jails") } else { PathBuf::from("/verif/.work/jails") };
+    let base = base.as_path();
     std::fs::create_dir_all(base).unwrap();
     let tmp = tempfile::tempdir_in(base).unwrap();
+    // the watched area: the whole (private) filesystem when confined, else the scratch directory
+    let watch = if confined() { PathBuf::from("/") } else { tmp.path().to_path_buf() };
     let mut top = tmp.path().to_path_buf();
     for i in 0..PAD {
         top = top.join(format!("p{i}"));
@@ -91,7 +155,7 @@ fn jail() -> Jail {
     // sentinels named like the walked components at every level between the scratch directory and the root
     let mut levels = vec![top.join("jail"), sibp.clone()];
     let mut d = top.clone();
-    while d.starts_with(tmp.path()) {
+    while d.starts_with(&watch) {
         levels.push(d.clone());
         if !d.pop() { break; }
     }
@@ -102,7 +166,7 @@ fn jail() -> Jail {
     }
     let root = Utf8PathBuf::from_path_buf(rootp.clone()).unwrap();
     let sib = Utf8PathBuf::from_path_buf(sibp).unwrap();
-    let scratch = tmp.path().to_path_buf();
+    let scratch = watch;
     let before = snapshot(&scratch, &rootp);
     Jail { _tmp: tmp, top: scratch, inner: top, root, sib, before }
 }
@@ -179,18 +243,23 @@ fn spellings(j: &Jail, start: &str, comps: &[String]) -> Vec<String> {
 fn main() {
     std::panic::set_hook(Box::new(|_| {}));
     let a: Vec<String> = std::env::args().collect();
+    let graph_text = if a[1] == "sibdepth" { String::new() } else { std::fs::read_to_string(&a[2]).unwrap() };
+    confine();
     if a[1] == "sibdepth" {
         let j = jail();
         println!("{}", j.sib.components().filter(|c| matches!(c, camino::Utf8Component::Normal(_))).count());
+        drop(j);
+        leave();
         return;
     }
-    let g: Value = serde_json::from_str(&std::fs::read_to_string(&a[2]).unwrap()).unwrap();
+    let g: Value = serde_json::from_str(&graph_text).unwrap();
     if a[1] == "paths" {
         let l: usize = a[3].parse().unwrap();
         paths(&g, l, a.get(4).map(|x| x.parse().unwrap()).unwrap_or(l));
     } else {
         reqs(&g, a[3].parse().unwrap(), a.get(4).map(|x| x == "edges").unwrap_or(false));
     }
+    leave();
 }
 
 // ------------------------------------------------------------------ C12
@@ -219,6 +288,7 @@ fn paths(g: &Value, l: usize, lops: usize) {
     let mut calls = 0u64;
     let mut ops = 0u64;
     let mut samples = vec![];
+    let mut not_executed = 0u64;
     for start in ["rel", "abs", "root", "sib"] {
         let init: Vec<String> = if start == "sib" { vec!["s".to_string(); sibdepth] } else { vec![] };
         // DFS over component sequences following the graph
@@ -253,8 +323,13 @@ fn paths(g: &Value, l: usize, lops: usize) {
                     } else if lex != lexical(exp.as_std_path()) && !fully_popped && drift.len() < 20 {
                         drift.push(json!({"name": name, "native": native.as_str(), "model": exp.as_str()}));
                     }
+                    // second safety layer: a name that resolves outside the watched area is reported (above) and NOT acted on
+                    let reachable = lex.starts_with(&j.top);
+                    if !reachable {
+                        not_executed += 1;
+                    }
                     // every operation with this name, on a fresh root (names longer than `lops` components: resolution only)
-                    for op in 0..(if comps.len() <= lops { 14 } else { 0 }) {
+                    for op in 0..(if comps.len() <= lops && reachable { 14 } else { 0 }) {
                         reset_root(&j);
                         ops += 1;
                         let other = "other";
@@ -272,9 +347,15 @@ fn paths(g: &Value, l: usize, lops: usize) {
                                 9 => { let _ = fsr.remove_directory(&name); }
                                 10 => {
                                     if let Ok(f) = fsr.open(&name, OpenOptions::new().read(true)) {
-                                        use std::os::fd::AsRawFd;
-                                        let link = std::fs::read_link(format!("/proc/self/fd/{}", f.as_raw_fd())).ok();
-                                        return link.map(|l| l.to_string_lossy().to_string());
+                                        // (no /proc inside the chroot: the opened object is identified by its inode)
+                                        use std::os::unix::fs::MetadataExt;
+                                        if let Ok(m) = f.metadata() {
+                                            let rm = std::fs::metadata(j.root.as_std_path()).ok();
+                                            let is_root = rm.map(|r| (r.dev(), r.ino()) == (m.dev(), m.ino())).unwrap_or(false);
+                                            if !is_root && !inodes_below(j.root.as_std_path()).contains(&(m.dev(), m.ino())) {
+                                                return Some(format!("OUTSIDE dev {} inode {}", m.dev(), m.ino()));
+                                            }
+                                        }
                                     }
                                 }
                                 11 => {
@@ -300,7 +381,7 @@ fn paths(g: &Value, l: usize, lops: usize) {
                         match r {
                             Err(_) => {}
                             Ok(Some(link)) => {
-                                if !Path::new(&link).starts_with(j.root.as_std_path()) && violations.len() < 20 {
+                                if (link.starts_with("OUTSIDE") || link.starts_with("listing")) && violations.len() < 20 {
                                     violations.push(json!({"name": name, "op": op, "what": "read outside the root", "opened": link}));
                                 }
                             }
@@ -334,7 +415,8 @@ fn paths(g: &Value, l: usize, lops: usize) {
             }
         }
     }
-    println!("{}", json!({"names": names, "native_path_calls": calls, "operations": ops, "violations": violations, "drift": drift, "samples": samples}));
+    println!("{}", json!({"names": names, "native_path_calls": calls, "operations": ops, "violations": violations, "drift": drift, "samples": samples,
+                           "confined_by_chroot": confined(), "names_not_acted_on_because_they_resolve_outside_the_watched_area": not_executed}));
 }
 
 fn jail_fix(j: &Jail) {
